@@ -1010,6 +1010,13 @@ class VM:
             r = h(self, cal, args)
             if r is not NotImplemented:
                 return r
+        # std's blanket impls `impl<A: PartialEq<B>, B> PartialEq<&B> for &A` (and PartialOrd / Ord): one level of
+        # references is peeled off and the call re-dispatched
+        if cal.kind == 'trait' and cal.trait in ('PartialEq', 'PartialOrd', 'Ord') and (cal.self_ty or '').lstrip().startswith('&') \
+                and all(isinstance(a, Ref) and isinstance(self.deref(a), Ref) for a in args):
+            inner_self = re.sub(r"^&\s*('\w+\s+)?(mut\s+)?", '', cal.self_ty.strip())
+            inner_tr = re.sub(r"<&\s*('\w+\s+)?(mut\s+)?", '<', cal.trait_full or cal.trait)
+            return self.call("<%s as %s>::%s" % (inner_self, inner_tr, cal.method), [self.deref(a) for a in args], env, dest_ty, frame)
         # 2. crate MIR
         r = self.resolve(cal)
         if r is not None:
